@@ -158,6 +158,17 @@ def main(argv):
     os.makedirs(EVD, exist_ok=True)
     rc = 0
     new_v, known_hit = [], {}
+    from checks.common import relevant
+    other = [v for v in violations
+             if not relevant(pid, v['label'], v.get('detail'))]
+    violations = [v for v in violations
+                  if relevant(pid, v['label'], v.get('detail'))]
+    ev['coverage']['other_property_failures'] = sorted(set(
+        v['label'] for v in other))
+    for lab in ev['coverage']['other_property_failures'][:10]:
+        print('OTHER-PROPERTY: obligation %s failed in a shared harness; it '
+              'is not a clause of %s (see the check of %s)' % (
+                  lab, pid, lab.split(':', 1)[0]))
     for v in violations:
         k = match_known(pid, v, known)
         if k is not None:
